@@ -4,6 +4,7 @@
 cd /verif
 for d in seeded/*/; do
   id=$(basename $d)
+  [ -f $d/meta.json ] || continue
   checks=$(python3 -c "import json;m=json.load(open('$d/meta.json'));print(' '.join(c.split('-')[0] for c in m['caught_by_checks']))")
   t=$(mktemp -d /tmp/seedall-XXXX)
   git -C /repo worktree add -q --detach $t HEAD || continue
